@@ -219,7 +219,7 @@ def check_case(case):
             elif run.get('infeasible') == 'back' and K > 0:
                 T = n - K
         t = T - n if run.get('negative') else T
-        if entry == 'evaluate' and run.get('oob') is not None:
+        if entry in ('evaluate', 'solve_t') and run.get('oob') is not None:
             # a position outside the span altogether (both spellings): IndexError from both back-ends, nothing written
             t = (n + run['oob']) if not run.get('negative') else (-n - 1 - run['oob'])
         opts = dict(run.get('opts') or {})
@@ -282,7 +282,7 @@ def check_case(case):
                 (not a.ok and type(a.exc).__name__ == 'SolutionError'):
             res.tag('skipped:non-finite-python-run')
             continue
-        cls = entry + ('/out-of-span' if entry == 'evaluate' and run.get('oob') is not None else
+        cls = entry + ('/out-of-span' if entry in ('evaluate', 'solve_t') and run.get('oob') is not None else
                        '/infeasible-period' if run.get('infeasible') and not (L <= T <= n - 1 - K) else
                        '/max_iter=0' if opts.get('max_iter', 100) == 0 and entry != 'evaluate' else
                        '/offset' if opts.get('offset') and entry != 'evaluate' else '')
@@ -510,9 +510,12 @@ def fixed_family():
                    {'entry': 'solve', 'opts': {'offset': 1, 'failures': 'ignore', 'max_iter': 1}},
                    {'entry': 'solve_t', 'tpos': 0, 'opts': {'offset': -1}}, {'entry': 'solve_t', 'tpos': 0, 'negative': True, 'opts': {'offset': -5}},
                    {'entry': 'evaluate', 'oob': 0}, {'entry': 'evaluate', 'oob': 1, 'negative': True},
-                   {'entry': 'evaluate', 'oob': 3}, {'entry': 'evaluate', 'oob': 0, 'negative': True}]))
+                   {'entry': 'evaluate', 'oob': 3}, {'entry': 'evaluate', 'oob': 0, 'negative': True},
+                   {'entry': 'solve_t', 'oob': 0}, {'entry': 'solve_t', 'oob': 1, 'negative': True},
+                   {'entry': 'solve_t', 'oob': 2, 'opts': {'failures': 'ignore', 'max_iter': 2}}, {'entry': 'solve_t', 'oob': 0, 'negative': True}]))
     progs.append(([['assign', V('Y'), ['bin', '+', V('X', -1), V('Z', 1)]]],
                   [{'entry': 'evaluate', 'oob': 0}, {'entry': 'evaluate', 'oob': 0, 'negative': True},
+                   {'entry': 'solve_t', 'oob': 1}, {'entry': 'solve_t', 'oob': 1, 'negative': True}, {'entry': 'solve_t', 'oob': 0},
                    {'entry': 'solve', 'opts': {'offset': 2}}, {'entry': 'solve', 'opts': {'offset': -2}}]))
     # max_iter = 0
     progs.append(([['assign', V('Y'), ['bin', '*', ['num', '0.5'], V('Y')]]],
